@@ -15,7 +15,7 @@ from ..indep import registry as R
 from . import common, encryption as X
 
 ID = "C05"
-RULE = ("hierarchies of depth 1-3 in a private directory: firmware files of sizes {0,1,23,24,255,256,65535,65536, "
+RULE = ("hierarchies of depth 1-3 in a private directory: firmware files of sizes {0,1,23,24,255,256,4095..4097,8192,65535,65536,65537,100000,131072,131073,200001, "
         "random, 1 MiB (rare)} referenced through all four forms (file, file_direct, envelope, raw) for image digest and "
         "image size under the five algorithms; integrated payloads by relative / absolute path with names containing "
         "spaces, non-ASCII and hex look-alikes that are unambiguous paths (deadbeef.bin, ./cafe, /abs/.../abcdef); "
@@ -28,7 +28,7 @@ ASSUMPTIONS = ["reference encoder + hashlib; the reader serves the bytes the har
                "precedence (recorded as hex_lookalike_literal, no verdict)"]
 N = {"quick": 4000, "thorough": 80000}
 CAP = {"quick": 40, "thorough": 800}
-SIZES = [0, 1, 23, 24, 255, 256, 65535, 65536]
+SIZES = [0, 1, 23, 24, 255, 256, 4095, 4096, 4097, 8192, 65535, 65536, 65537, 100000, 131072, 131073, 200001]
 FNAMES = ["fw.bin", "with space.bin", "ünï côdé.bin", "deadbeef.bin", "./cafe", "abcdef", "deadbeef", "00", "1234.5678",
           "sub/dir/image.bin", "AB.CD", "feed.face", "中文.bin"]
 
@@ -361,7 +361,7 @@ def finish(merged, tier, seed):
     cnt = merged["counters"]
     need = ["digest-form:file", "digest-form:file_direct", "digest-form:envelope", "digest-form:raw", "size-form:file",
             "size-form:file_direct", "size-form:envelope", "size-form:raw", "dependency:by-path", "dependency:inline",
-            "payload-by-path", "bare-hex-file-name", "encrypt-outputs-as-file_direct", "file-size:0", "file-size:65536"] \
+            "payload-by-path", "bare-hex-file-name", "encrypt-outputs-as-file_direct", "file-size:0", "file-size:65536", "file-size:65537", "file-size:200001"] \
         + ["digest-alg:" + a for a in G.HASHES]
     for k in need:
         if cnt.get(k, 0) < 3:
